@@ -89,14 +89,14 @@ Emit ==
     IF AtEntry
     THEN LET c == Case(ci)
              n == c.A.r
+             xa == IF c.exact THEN ExactExport(c.A, VCol(ci)) ELSE [xq |-> <<>>, xh |-> <<>>]
          IN PrintT(ToJson([ci |-> ci, name |-> c.name, n |-> n, kdim |-> kd,
                            ranks |-> Ranks(c.A, VCol(ci)),
                            K |-> KrylovMat(c.A, VCol(ci), n).e,
                            spec |-> IF c.hasEig THEN AnySeq(ExcitedSpec(c.V, c.lam, c.sup, VCol(ci))) ELSE <<>>,
                            full |-> IF c.hasEig THEN AnySeq(FullSpec(c.lam)) ELSE <<>>,
                            exact |-> c.exact,
-                           xq |-> IF c.exact THEN ExactExport(c.A, VCol(ci)).xq ELSE <<>>,
-                           xh |-> IF c.exact THEN ExactExport(c.A, VCol(ci)).xh ELSE <<>>,
+                           xq |-> xa.xq, xh |-> xa.xh,
                            exp |-> [q \in 1..(n + Extra) |-> Expect(q, n, kd)]]))
     ELSE TRUE
 =============================================================================
